@@ -4,6 +4,8 @@
   non-interference claim is tied by paired simulations (with / without an off-path attacker).
 -/
 import Nice.Model.Gate
+import Nice.Props.C03Flow
+import Nice.Props.C04
 namespace Nice.Props.C03
 open Nice.Gate Nice.Gen
 
